@@ -76,6 +76,31 @@ Theorem c13_template_fn_result_replaces_the_call :
 Proof. exact expand_T_hooked. Qed.
 Print Assumptions c13_template_fn_result_replaces_the_call.
 
+(* "Exactly the selected templates are replaced by their expansion and every other call is emitted as a call with the same
+   name and arguments", on the flat fragment of C04 (Model/FlatCall.v): for every library, every selection, every page of
+   text and calls with plain names and arguments to templates of text and parameter references (or to no template), with
+   or without pre_expand, and all sufficiently large fuel, the expander model returns the page in which each call that is
+   selected (all of them without pre_expand) is replaced by the transclusion rule's result and each other call stands as
+   it was written. *)
+From WTP Require Import Model.FlatCall Proofs.FlatCallProofs.
+From Coq Require Import Arith.
+Theorem c13_flat_pages_expand_exactly_the_selected_calls :
+  forall pfnames lib opts nwmap pre page,
+    forallb (flat_item pfnames lib) page = true -> o_tfn opts = [] -> o_pfn opts = [] ->
+    exists F, forall fuel, (F <= fuel)%nat ->
+      expand_page pfnames nwmap lib opts pre fuel page = Some (codes (page_result_sel lib (o_sel opts) pre page)).
+Proof. exact flat_pages_sel. Qed.
+Print Assumptions c13_flat_pages_expand_exactly_the_selected_calls.
+
+(* a page with a selected and an unselected call: "{{s|x}} {{u|y}}", Template:s = "<{{{1}}}>" flagged for pre-expansion,
+   Template:u = "[{{{1}}}]" not: the result is "<x> {{u|y}}" *)
+Example c13_flat_selection_example :
+  let lib := [mktpl [83] [Ch 60; A [chars [49]]; Ch 62] true; mktpl [85] [Ch 91; A [chars [49]]; Ch 93] false] in
+  let page := [T [chars [115]; chars [120]]; Ch 32; T [chars [117]; chars [121]]] in
+  forallb (flat_item [] lib) page = true /\
+  codes (page_result_sel lib (mksel None None) true page) = [60; 120; 62; 32; 123; 123; 117; 124; 121; 125; 125]%N.
+Proof. split; vm_compute; reflexivity. Qed.
+
 (* BEGIN PINS (tools/repin.py) *)
 From WTP Require Import Gen.GenPins.
 Module Pins.
